@@ -11,8 +11,9 @@ def obligations(tier):
     q = tier == 'quick'
     o = []
     codecs = [('unc', 'CARQUET_COMPRESSION_UNCOMPRESSED')] if q else [('unc', 'CARQUET_COMPRESSION_UNCOMPRESSED'), ('snappy', 'CARQUET_COMPRESSION_SNAPPY'), ('lz4', 'CARQUET_COMPRESSION_LZ4')]
-    for shape in (0, 1):
+    for shape in (0, 1, 2):
         for cn, cd in codecs:
+            if shape == 2 and cn != 'unc': continue
             for om, on in ((0, 'buffer'), (1, 'stdio'), (2, 'mmap')):
                 o.append(E2('cut/%s/shape%d/%s' % (on, shape, cn), H, defines=['-DMODE=1', '-DSHAPE=%d' % shape, '-DCODEC=' + cd, '-DOPENMODE=%d' % om, '-DROWS=4'],
                             all_lib=True, timeout=600, fork_max=1024, stubs=STUBS,
